@@ -323,27 +323,27 @@ func reproduced(rf *replayFile, out string) bool {
 // ---------------------------------------------------------------- check
 
 type harnessReport struct {
-	Name         string   `json:"harness"`
-	Paths        int64    `json:"paths"`
-	Nontrivial   int64    `json:"paths_with_solver_decided_branch"`
-	Infeasible   int64    `json:"infeasible_prefixes"`
-	Steps        int64    `json:"ssa_instructions_executed"`
-	Complete     bool     `json:"explored_to_completion"`
-	WallS        float64  `json:"wall_s"`
-	Asserts      int64    `json:"assertions_checked"`
-	QFeas        int64    `json:"solver_feasibility_queries"`
-	QAssert      int64    `json:"solver_assertion_queries"`
-	QCached      int64    `json:"queries_answered_from_cache"`
-	QModel       int64    `json:"queries_answered_by_cached_model"`
-	QUnknown     int64    `json:"solver_unknown"`
-	SolverS      float64  `json:"solver_s"`
+	Name         string           `json:"harness"`
+	Paths        int64            `json:"paths"`
+	Nontrivial   int64            `json:"paths_with_solver_decided_branch"`
+	Infeasible   int64            `json:"infeasible_prefixes"`
+	Steps        int64            `json:"ssa_instructions_executed"`
+	Complete     bool             `json:"explored_to_completion"`
+	WallS        float64          `json:"wall_s"`
+	Asserts      int64            `json:"assertions_checked"`
+	QFeas        int64            `json:"solver_feasibility_queries"`
+	QAssert      int64            `json:"solver_assertion_queries"`
+	QCached      int64            `json:"queries_answered_from_cache"`
+	QModel       int64            `json:"queries_answered_by_cached_model"`
+	QUnknown     int64            `json:"solver_unknown"`
+	SolverS      float64          `json:"solver_s"`
 	Decisions    map[string]int64 `json:"decisions_by_kind"`
 	Reached      map[string]int64 `json:"reach_labels"`
-	BoundExceed  []string `json:"bound_exceeded,omitempty"`
-	Unsupported  []string `json:"unsupported_paths,omitempty"`
-	Inconclusive []string `json:"inconclusive,omitempty"`
-	EngineErrors []string `json:"engine_errors,omitempty"`
-	Threads      int      `json:"max_goroutines"`
+	BoundExceed  []string         `json:"bound_exceeded,omitempty"`
+	Unsupported  []string         `json:"unsupported_paths,omitempty"`
+	Inconclusive []string         `json:"inconclusive,omitempty"`
+	EngineErrors []string         `json:"engine_errors,omitempty"`
+	Threads      int              `json:"max_goroutines"`
 }
 
 func checkCmd(args []string) int {
@@ -647,7 +647,7 @@ func checkCmd(args []string) int {
 			"intrinsics_used":               inList,
 			"bounds":                        spec.Bounds[tier],
 			"outside_the_claim":             spec.Outside,
-			"queries": map[string]any{"feasibility": tot.QFeas, "assertion": tot.QAssert, "answered_from_cache": tot.QCached, "answered_by_cached_model": tot.QModelHit, "unknown": tot.QUnknown},
+			"queries":                       map[string]any{"feasibility": tot.QFeas, "assertion": tot.QAssert, "answered_from_cache": tot.QCached, "answered_by_cached_model": tot.QModelHit, "unknown": tot.QUnknown},
 			"assertions_discharged":         tot.AssertsChecked,
 			"solver":                        solverFromEnv().String(),
 			"solver_s":                      solverS,
